@@ -66,6 +66,63 @@ def model_to_dict(m, limit=60):
 PREFER = None      # set per contract by the runner (Contract(prefer='cvc5'))
 
 
+def risky(terms):
+    """True if the formulas contain a quantifier together with sequence- or array-sorted terms.  For one such
+    (satisfiable) path condition z3 5.1.0 answered 'unsat' (notes/z3_spurious_unsat.smt2): a z3 proof in this class
+    needs a second opinion (cvc5, or a second z3 instance with another seed) before it counts."""
+    seen = set()
+    found = {'q': False, 's': False}
+
+    def walk(e):
+        stack = [e]
+        while stack:
+            x = stack.pop()
+            i = x.get_id()
+            if i in seen:
+                continue
+            seen.add(i)
+            if z3.is_quantifier(x):
+                found['q'] = True
+                stack.append(x.body())
+                continue
+            k = x.sort().kind()
+            if k in (z3.Z3_SEQ_SORT, z3.Z3_ARRAY_SORT) and not z3.is_string(x):
+                found['s'] = True
+            stack.extend(x.children())
+    for t in terms:
+        walk(t)
+        if found['q'] and found['s']:
+            return True
+    return False
+
+
+def second_opinion(ob, s, smt2, t0, res=None):
+    """z3 said unsat for a risky obligation: confirm by cvc5 or by a second z3 instance with another seed."""
+    if res is None:
+        res = run_cvc5(smt2, timeout=CROSS_TIMEOUT_S)
+    ob.secs = time.time() - t0
+    if res == 'unsat':
+        ob.backend = 'z3&cvc5'
+        return
+    if res == 'sat':
+        ob.verdict, ob.backend = 'undecided', 'disagreement:z3=unsat,cvc5=sat'
+        return
+    s2 = z3.Solver()
+    s2.set('timeout', Z3_TIMEOUT_MS)
+    s2.set('random_seed', 17)
+    for h in ob.hyps:
+        s2.add(h)
+    s2.add(z3.Not(ob.goal))
+    r2 = s2.check()
+    ob.secs = time.time() - t0
+    if r2 == z3.unsat:
+        ob.backend = 'z3x2'
+    elif r2 == z3.sat:
+        ob.verdict, ob.backend = 'undecided', 'disagreement:z3=unsat,z3(seed 17)=sat'
+    else:
+        ob.verdict, ob.backend = 'undecided', 'z3-unsat-not-confirmed(cvc5 unknown, z3 seed 17 unknown)'
+
+
 def discharge(ob, use_cvc5=True):
     """Decide one obligation. Sets ob.verdict/backend/model/secs."""
     t0 = time.time()
@@ -99,12 +156,17 @@ def discharge(ob, use_cvc5=True):
     ob.secs = time.time() - t0
     if r == z3.unsat:
         ob.verdict, ob.backend = 'proved', 'z3'
+        if not THOROUGH and use_cvc5 and not tried_cvc5 and risky(list(ob.hyps) + [ob.goal]):
+            second_opinion(ob, s, smt2, t0)
+            return ob
         if THOROUGH and use_cvc5:
             # thorough tier: every z3 proof is cross-checked by the independent solver
             res = run_cvc5(smt2, timeout=CROSS_TIMEOUT_S)
             ob.secs = time.time() - t0
             if res == 'unsat':
                 ob.backend = 'z3&cvc5'
+            elif res != 'sat' and risky(list(ob.hyps) + [ob.goal]):
+                second_opinion(ob, s, smt2, t0, res=res)
             elif res == 'sat':
                 ob.verdict, ob.backend = 'undecided', 'disagreement:z3=unsat,cvc5=sat'
                 dump = os.environ.get('PYVC_DUMP') or '/dev/shm/pyvc_disagreements'
